@@ -288,7 +288,7 @@ def t_sheet_case(wb, rng):
     s = wb.sheets[key]
     if s["name"] != key:
         return None
-    s["name"] = rng.choice([key.upper(), key.title()])
+    s["name"] = rng.choice([key.upper(), key.title(), key + " ", " " + key.title()])  # "spacing": a stray blank around the name on the sheet tab
     return f"sheet-name-case:{key}->{s['name']}"
 
 
